@@ -376,6 +376,18 @@ class CanBehaveLikeAVariable(SymbolicExpression[T], ABC):
         self._if_not_in_symbolic_mode_raise_error_('__ge__')
         return Comparator(self, other, operator.ge)
 
+    def __and__(self, other):
+        self._if_not_in_symbolic_mode_raise_error_('__and__')
+        return super().__and__(other)
+
+    def __or__(self, other):
+        self._if_not_in_symbolic_mode_raise_error_('__or__')
+        return super().__or__(other)
+
+    def __invert__(self):
+        self._if_not_in_symbolic_mode_raise_error_('__invert__')
+        return super().__invert__()
+
     def _if_not_in_symbolic_mode_raise_error_(self, method_name: str) -> None:
         if not in_symbolic_mode():
             raise AttributeError(f"You are not in symbolic_mode {self.__class__.__name__} object has no attribute"
